@@ -54,7 +54,18 @@ class Prefetch(_CHarness):
     self.log = []
     self.end = None
 
-    def decode(fut):
+    def decode(fut, patient=True):
+      if not patient:
+        # after a shutdown the server may be gone: a request to a stopped
+        # server is never answered by the transport, which is not the
+        # protocol's business; wait a bounded virtual time
+        from vmc import vtime
+        waited = 0
+        while not fut.done() and waited < 300:
+          vtime.sleep(30)
+          waited += 30
+        if not fut.done():
+          return [TimeoutError('no answer from a stopped server (harness)')]
       return lf.maybe_make(fut.result())
 
     class _Now:
@@ -123,11 +134,13 @@ class Prefetch(_CHarness):
       consumed = 0
       done = False
       scripted = p['script'] is None
+      self.script_ran = False
       guard = 0
       while not done and guard < 12:
         guard += 1
         if not scripted and consumed >= p['at']:
           scripted = True
+          self.script_ran = True
           op = p['script'][0]
           if op == 'reinit':
             r = client.call(lf.trace(fx.gen)(p['script'][1], 'R2', None, 'g2'),
@@ -152,7 +165,8 @@ class Prefetch(_CHarness):
             client.shutdown().result()
             self.log.append(('shutdown',))
             cur = 'stopped'
-        batch = decode(client.next_batch_from_generator(p['k']))
+        batch = decode(client.next_batch_from_generator(p['k']),
+                       patient=not (cur == 'stopped' and not p['direct']))
         self.responses.append((cur, batch))
         for e in batch:
           if isinstance(e, BaseException):
@@ -162,7 +176,7 @@ class Prefetch(_CHarness):
       self.end = 'done' if done else 'guard'
       if not p['direct']:
         server.stop().join()
-      elif server._enqueue_thread is not None:
+      if server._enqueue_thread is not None:
         server._enqueue_thread.join()
     return body
 
@@ -226,6 +240,8 @@ class Prefetch(_CHarness):
         out.append((f'C15:prefetch:more-elements-than-generated:{cfg}',
                     {'tag': tag, 'seq': seq}))
     script = p['script'][0] if p['script'] else None
+    if script is not None and not getattr(self, 'script_ran', False):
+      script = None      # the stream ended before the scripted operation
     final = markers[-1][1] if markers else None
     if script is None:
       # the plain protocol: all elements, then exactly one marker
@@ -668,3 +684,286 @@ class Liveness(_CHarness):
 
 
 HARNESSES['liveness'] = Liveness
+
+
+# ===========================================================================
+# C14: remote evaluation == local evaluation
+# ===========================================================================
+
+def c14_expressions(depth):
+  """All lazy expressions of the C14 grammar up to a depth, as (name, builder)
+  where builder(lf) returns the traced expression."""
+  def ints(d):
+    if d == 0:
+      return [('1', lambda lf: 1), ('2', lambda lf: 2)]
+    prev = ints(d - 1)
+    sub = prev if d == 1 else prev[:6]
+    out = []
+    for (na, a) in sub:
+      for (nb, b) in sub[:3]:
+        out.append((f'add({na},{nb})',
+                    lambda lf, a=a, b=b: lf.trace(fx.add)(a(lf), b(lf))))
+        out.append((f'mul({na},b={nb})',
+                    lambda lf, a=a, b=b: lf.trace(fx.mul)(a(lf), b=b(lf))))
+        out.append((f'Box({na})({nb})',
+                    lambda lf, a=a, b=b: lf.trace(fx.Box)(a(lf))(b(lf))))
+        out.append((f'Box({na}).plus({nb}).v',
+                    lambda lf, a=a, b=b: lf.trace(fx.Box)(a(lf)).plus(b(lf)).v))
+      out.append((f"Box({na})['a']",
+                  lambda lf, a=a: lf.trace(fx.Box)(a(lf))['a']))
+      out.append((f"Box({na})['b'][1]",
+                  lambda lf, a=a: lf.trace(fx.Box)(a(lf))['b'][1]))
+      out.append((f'Box({na}).v', lambda lf, a=a: lf.trace(fx.Box)(a(lf)).v))
+    return out
+
+  exprs = []
+  for d in range(1, depth + 1):
+    exprs += ints(d)
+  base = ints(1)[:4]
+  for (na, a) in base:
+    exprs.append((f'Box({na})', lambda lf, a=a: lf.trace(fx.Box)(a(lf))))
+    exprs.append((f'make_list({na})',
+                  lambda lf, a=a: lf.trace(fx.make_list)(a(lf))))
+    exprs.append((f"identity(dict(p={na}))",
+                  lambda lf, a=a: lf.trace(fx.identity)({'p': a(lf)})))
+    # errors: same exception type and message
+    exprs.append((f'add(raiser(),{na})',
+                  lambda lf, a=a: lf.trace(fx.add)(lf.trace(fx.raiser)('e1'),
+                                                  a(lf))))
+    exprs.append((f"Box({na})['zz']",
+                  lambda lf, a=a: lf.trace(fx.Box)(a(lf))['zz']))
+    exprs.append((f'Box({na}).nope',
+                  lambda lf, a=a: lf.trace(fx.Box)(a(lf)).nope))
+    exprs.append((f"add({na},'s')",
+                  lambda lf, a=a: lf.trace(fx.add)(a(lf), 's')))
+  exprs.append(('raiser(m)', lambda lf: lf.trace(fx.raiser)('m')))
+  exprs.append(('key_raiser(k)', lambda lf: lf.trace(fx.key_raiser)('k')))
+  # cached calls (at the root and nested), evaluated twice in a row
+  cached = []
+  for (na, a) in ints(1)[:6]:
+    for flag in ('root', 'nested'):
+      def build(lf, a=a, flag=flag):
+        if flag == 'root':
+          return lf.trace(fx.add)(a(lf), 1, cache_result_=True)
+        return lf.trace(fx.add)(
+            lf.trace(fx.mul)(a(lf), 2, cache_result_=True), 1)
+      cached.append((f'add[{flag}-cached]({na},1)#cached', build))
+      cached.append((f'add[{flag}-cached]({na},1)#cached', build))
+  return exprs + cached
+
+
+def _same(a, b):
+  import numpy as np
+  if isinstance(a, BaseException) or isinstance(b, BaseException):
+    return (type(a) is type(b) or
+            # handler errors travel as text: compare type name and message
+            False)
+  try:
+    return bool(a == b) and type(a) is type(b)
+  except Exception:  # pylint: disable=broad-except
+    return False
+
+
+class RemoteEval(_CHarness):
+  """params:
+    part:   'exprs' (chunk i of n of the expression list) | 'remote-object' |
+            'iterators' | 'shutdown' | 'two-clients'
+    depth, chunk, nchunks: expression selection
+    at:     shutdown position in a 3-call history
+  """
+  name = 'remote_eval'
+  tick = 15.0
+  max_steps = 200000
+
+  def __init__(self, part='exprs', depth=2, chunk=0, nchunks=1, at=0,
+               how='stop', mode='preempt'):
+    self.params = dict(part=part, depth=depth, chunk=chunk, nchunks=nchunks,
+                       at=at, how=how, mode=mode)
+    self.mode = mode
+    _m()
+
+  def setup(self):
+    m = _m()
+    p = self.params
+    lf = m.lazy_fns
+    self.rows = []     # (name, local outcome, remote outcome)
+    self.extra = []
+
+    def local(expr):
+      try:
+        return ('ok', lf.maybe_make(expr))
+      except sched.Abort:
+        raise
+      except BaseException as e:  # pylint: disable=broad-except
+        return ('exc', type(e).__name__, str(e))
+
+    def remote(client, expr):
+      try:
+        return ('ok', client.get_result(expr))
+      except sched.Abort:
+        raise
+      except BaseException as e:  # pylint: disable=broad-except
+        return ('exc', type(e).__name__, str(e))
+
+    def body():
+      server = m.courier_server.CourierServer('w0')
+      server.start()
+      client = m.courier_utils.CourierClient('w0', call_timeout=30)
+      client.wait_until_alive()
+      part = p['part']
+      if part == 'exprs':
+        exprs = c14_expressions(p['depth'])[p['chunk']::p['nchunks']]
+        for name, build in exprs:
+          expr = build(lf)
+          self.rows.append((name, local(build(lf)), remote(client, expr)))
+      elif part == 'remote-object':
+        ro = client.get_result(lf.trace(fx.Box)(3, lazy_result_=True))
+        self.extra.append(('type', type(ro).__name__))
+        import pickle
+        blob = m.lazy_fns.pickler.dumps(ro)
+        self.extra.append(('pickle-has-object', b'Box' in blob and b'items' in blob))
+        box = fx.Box(3)
+        for name, r, l in (
+            ('v', lambda: ro.v.result_(), lambda: box.v),
+            ('call', lambda: ro(5).result_(), lambda: box(5)),
+            ('plus.v', lambda: ro.plus(2).v.result_(), lambda: box.plus(2).v),
+            ('plus.call', lambda: ro.plus(2)(5).result_(), lambda: box.plus(2)(5)),
+            ("['a']", lambda: ro['a'].result_(), lambda: box['a']),
+            ("['b'][1]", lambda: ro['b'][1].result_(), lambda: box['b'][1]),
+            ("['zz']", lambda: ro['zz'].result_(), lambda: box['zz']),
+            ('nope', lambda: ro.nope.result_(), lambda: box.nope),
+            ('self', lambda: ro.result_(), lambda: box)):
+          def run(f):
+            try:
+              return ('ok', f())
+            except sched.Abort:
+              raise
+            except BaseException as e:  # pylint: disable=broad-except
+              return ('exc', type(e).__name__, str(e))
+          self.rows.append((name, run(l), run(r)))
+      elif part == 'iterators':
+        for n in (0, 1, 3):
+          ro = client.get_result(lf.trace(fx.make_list)(n, lazy_result_=True))
+          got, ends = [], 0
+          it = iter(ro)
+          for _ in range(n + 3):
+            try:
+              got.append(next(it))
+            except StopIteration:
+              ends += 1
+          self.rows.append((f'iter(list {n})', ('ok', (list(range(n)), 3)),
+                            ('ok', (got, ends))))
+          gen = client.get_result(lf.trace(fx.gen)(n, 'R', lazy_result_=True))
+          it = m.courier_utils.RemoteIterator(gen)
+          got, end = [], None
+          try:
+            while True:
+              got.append(next(it))
+          except StopIteration as e:
+            end = e.value
+          self.rows.append((f'RemoteIterator(gen {n})',
+                            ('ok', ([('g', i) for i in range(n)], 'R')),
+                            ('ok', (got, end))))
+          # a remote queue fed on the server
+          q = m.iter_utils.IteratorQueue(2, name='rq')
+          q.enqueue_from_iterator(fx.gen(min(n, 2), 'QR'))
+          rq = m.courier_utils.RemoteIteratorQueue.new(q, server_addr=client)
+          got, end = [], None
+          try:
+            while True:
+              got.append(rq.get())
+          except StopIteration as e:
+            end = e.value
+          self.rows.append((f'RemoteIteratorQueue({n})',
+                            ('ok', ([('g', i) for i in range(min(n, 2))], 'QR')),
+                            ('ok', (got, end))))
+      elif part == 'shutdown':
+        calls = [lf.trace(fx.add)(1, 2), lf.trace(fx.mul)(2, 3),
+                 lf.trace(fx.raiser)('late')]
+        for i, expr in enumerate(calls):
+          if i == p['at']:
+            if p['how'] == 'stop':
+              server.stop()
+            elif p['how'] == 'client-shutdown':
+              client.shutdown()
+            else:
+              server._request_shutdown()
+          self.rows.append((f'call{i}@shutdown{p["at"]}', local(calls[i]),
+                            remote(client, expr)))
+      elif part == 'two-clients':
+        c2 = m.courier_utils.CourierClient('w0', call_timeout=31)
+        c2.wait_until_alive()
+
+        def worker(c, tag):
+          for name, build, want in (
+              ('cached-add', lambda: lf.trace(fx.add)(1, 2, cache_result_=True), 3),
+              ('Box(2)(3)', lambda: lf.trace(fx.Box)(2)(3), 6),
+              ('raiser', lambda: lf.trace(fx.raiser)('both'),
+               ('exc', 'ValueError', 'both'))):
+            exp = want if isinstance(want, tuple) else ('ok', want)
+            self.rows.append((f'{tag}:{name}', exp, remote(c, build())))
+        ts = [vthreading.Thread(target=worker, args=(client, 'A'), name='clientA'),
+              vthreading.Thread(target=worker, args=(c2, 'B'), name='clientB')]
+        for t in ts:
+          t.start()
+        for t in ts:
+          t.join()
+      if server.has_started:
+        server.stop()
+    return body
+
+  def outcome(self, res):
+    return (res.failure and res.failure[0],
+            tuple((n, r[0], r[1] if r[0] == 'exc' else repr(r[1])[:30])
+                  for n, _, r in self.rows))
+
+  def check(self, res):
+    p = self.params
+    if res.failure:
+      kind, info = res.failure
+      return [(f'C14:{p["part"]}:{kind}{_stuck(kind, info)}',
+               {'failure': kind, 'info': _info(info), 'rows': repr(self.rows)[-600:]})]
+    out = []
+    for name, loc, rem in self.rows:
+      if p['part'] == 'shutdown':
+        at = p['at']
+        i = int(name[4])
+        if i < at:
+          ok = self._agree(loc, rem)
+        else:
+          # during/after shutdown: the right answer, or a retriable error
+          ok = self._agree(loc, rem) or (
+              rem[0] == 'exc' and rem[1] in ('TimeoutError', 'RuntimeError',
+                                             'StatusError'))
+        if not ok:
+          out.append((f'C14:shutdown:{p["how"]}:wrong-answer',
+                      {'call': name, 'local': repr(loc), 'remote': repr(rem)}))
+        continue
+      if not self._agree(loc, rem):
+        kind = ('value' if loc[0] == rem[0] == 'ok' else
+                'exception' if loc[0] == rem[0] == 'exc' else 'ok-vs-exception')
+        shape = name.split('(')[0].split('[')[0].split('#')[0]
+        cached = '#cached' if name.endswith('#cached') else ''
+        out.append((f'C14:{p["part"]}:{kind}-differs:{shape}{cached}',
+                    {'expr': name, 'local': repr(loc), 'remote': repr(rem)}))
+    for k, v in self.extra:
+      if k == 'type' and v != 'RemoteObject':
+        out.append(('C14:remote-object:lazy-result-not-a-RemoteObject', {'type': v}))
+      if k == 'pickle-has-object' and v:
+        out.append(('C14:remote-object:pickle-contains-the-object', {}))
+    return out
+
+  @staticmethod
+  def _agree(loc, rem):
+    if loc[0] != rem[0]:
+      return False
+    if loc[0] == 'ok':
+      try:
+        return bool(loc[1] == rem[1]) and type(loc[1]) is type(rem[1])
+      except Exception:  # pylint: disable=broad-except
+        return False
+    # same exception type and message
+    return loc[1] == rem[1] and loc[2] == rem[2]
+
+
+HARNESSES['remote_eval'] = RemoteEval
